@@ -117,6 +117,52 @@ func unionExpect(run *evid.Run, op *model.Op, o0, o1 *model.Outcome) (ok bool, d
 	return false, "", nil, nil, true, "neither member has it"
 }
 
+// ctxBound makes a member behave like a remote one: the readers it hands out stop working once the
+// context of the call that produced them is done (an HTTP response body does exactly that).
+type ctxBound struct{ ociregistry.Interface }
+
+type ctxReader struct {
+	ociregistry.BlobReader
+	ctx context.Context
+}
+
+func (r ctxReader) Read(p []byte) (int, error) {
+	if err := r.ctx.Err(); err != nil {
+		return 0, fmt.Errorf("member's response body: %w", err)
+	}
+	if len(p) > 7 {
+		p = p[:7] // small reads: the context is consulted throughout the body
+	}
+	return r.BlobReader.Read(p)
+}
+
+func bind(ctx context.Context, r ociregistry.BlobReader, err error) (ociregistry.BlobReader, error) {
+	if err != nil {
+		return nil, err
+	}
+	return ctxReader{r, ctx}, nil
+}
+
+func (m ctxBound) GetBlob(ctx context.Context, repo string, d ociregistry.Digest) (ociregistry.BlobReader, error) {
+	r, err := m.Interface.GetBlob(ctx, repo, d)
+	return bind(ctx, r, err)
+}
+
+func (m ctxBound) GetBlobRange(ctx context.Context, repo string, d ociregistry.Digest, o0, o1 int64) (ociregistry.BlobReader, error) {
+	r, err := m.Interface.GetBlobRange(ctx, repo, d, o0, o1)
+	return bind(ctx, r, err)
+}
+
+func (m ctxBound) GetManifest(ctx context.Context, repo string, d ociregistry.Digest) (ociregistry.BlobReader, error) {
+	r, err := m.Interface.GetManifest(ctx, repo, d)
+	return bind(ctx, r, err)
+}
+
+func (m ctxBound) GetTag(ctx context.Context, repo string, tag string) (ociregistry.BlobReader, error) {
+	r, err := m.Interface.GetTag(ctx, repo, tag)
+	return bind(ctx, r, err)
+}
+
 func readPhase(run *evid.Run, idx int) {
 	rng := run.Rand(151, uint64(idx))
 	u := model.SmallUniverse()
@@ -167,8 +213,14 @@ func readPhase(run *evid.Run, idx int) {
 		}
 		polySubjects = append(polySubjects, subj)
 	}
-	useq := model.NewEnv(ociunify.New(m0, m1, &ociunify.Options{ReadPolicy: ociunify.ReadSequential}))
-	ucon := model.NewEnv(ociunify.New(m0, m1, &ociunify.Options{ReadPolicy: ociunify.ReadConcurrent}))
+	// every other state is read through members whose readers die with the context they were opened under
+	var u0, u1 ociregistry.Interface = m0, m1
+	if (idx/4)%2 == 1 {
+		u0, u1 = ctxBound{m0}, ctxBound{m1}
+		run.Count("read_states_with_context_bound_members", 1)
+	}
+	useq := model.NewEnv(ociunify.New(u0, u1, &ociunify.Options{ReadPolicy: ociunify.ReadSequential}))
+	ucon := model.NewEnv(ociunify.New(u0, u1, &ociunify.Options{ReadPolicy: ociunify.ReadConcurrent}))
 	d0, d1 := model.NewEnv(m0), model.NewEnv(m1)
 	useq.Reiterate, ucon.Reiterate = true, true // unified listing sequences are ranged over twice
 	ops := u.SnapshotOps(model.New(false))
